@@ -82,13 +82,14 @@ const (
 	PvNotExist
 	PvNetClosed
 	PvHandlerTimeout
-	PvFormatter // a value implementing fmt.Formatter (its rendering carries the token)
-	PvPublic    // a value offering Public() string
+	PvFormatter  // a value implementing fmt.Formatter (its rendering carries the token)
+	PvPublic     // a value offering Public() string
+	PvLineMapped // a string panic raised from a //line-mapped position one line past the end of its file
 	pvMax
 )
 
 // PanicKindNames for reports.
-var PanicKindNames = []string{"string", "error", "runtime:nil-map", "runtime:index", "struct", "http.ErrAbortHandler", "wrapped-error", "int", "slice-typed-error", "map", "func", "error-with-panicking-Error()", "inject.InterfaceOf-panic", "io.EOF", "context.Canceled", "context.DeadlineExceeded", "wrapped-EPIPE", "wrapped-ECONNRESET", "fs.ErrNotExist", "net.ErrClosed", "http.ErrHandlerTimeout", "fmt.Formatter", "has-Public()"}
+var PanicKindNames = []string{"string", "error", "runtime:nil-map", "runtime:index", "struct", "http.ErrAbortHandler", "wrapped-error", "int", "slice-typed-error", "map", "func", "error-with-panicking-Error()", "inject.InterfaceOf-panic", "io.EOF", "context.Canceled", "context.DeadlineExceeded", "wrapped-EPIPE", "wrapped-ECONNRESET", "fs.ErrNotExist", "net.ErrClosed", "http.ErrHandlerTimeout", "fmt.Formatter", "has-Public()", "line-mapped-past-eof"}
 
 type fmtValue struct{ tok string }
 
@@ -151,6 +152,8 @@ func raise(kind int, tok string, c flamego.Context) {
 		panic(fmtValue{tok})
 	case PvPublic:
 		panic(publicValue{tok})
+	case PvLineMapped:
+		raiseFromMappedLine(tok)
 	case PvString:
 		panic(tok)
 	case PvError:
@@ -352,6 +355,14 @@ func (h *SimH) do(q *Req, c flamego.Context, rw http.ResponseWriter, r *http.Req
 		if rw != nil {
 			attempt()
 			http.Error(rw, "denied "+q.Name, http.StatusForbidden)
+		}
+	case OpHijack:
+		if hj, ok := rw.(http.Hijacker); ok {
+			if _, _, err := hj.Hijack(); err != nil {
+				q.Note("hijack:refused")
+			} else {
+				q.Note("hijack:ok")
+			}
 		}
 	case OpSetCT:
 		if rw != nil {
